@@ -9,7 +9,7 @@ import json, os
 import fw
 
 ANY_SOURCE, ANY_TAG = -555, -444
-CFGS = [(0, 65536), (64, 128), (128, 64), (64, 64), (256, 96), (96, 100000)]   # (async-small-thresh, send-is-detached-thresh) bytes
+CFGS = [(0, 65536), (64, 128), (64, 64), (32, 256), (96, 100000), (128, 1024)]   # (async-small-thresh, send-is-detached-thresh) bytes; the library requires small <= detached
 
 
 def sizes_around(rng, a, d):
@@ -62,7 +62,13 @@ def gen_program(rng, np_max):
             merged.append(l.pop(0))
         # a prefix of the posting order may be pre-posted (receive-first path): those must be Irecv
         npre = rng.choice([0, 0, 1, 2, len(merged)]) if merged else 0
-        recvs[r] = [(s, t, b, 1 if i < npre else k, 1 if i < npre else 0) for i, (s, t, b, k) in enumerate(merged)]
+        out = []
+        for i, (s, t, b, k) in enumerate(merged):
+            pre = 1 if i < npre else 0
+            if pre and 4 * b < a and rng.random() < 0.9:
+                b = max(b, max(m[2] for _, m in inbox[s]))        # see finding truncation-deadlock-preposted
+            out.append((s, t, b, 1 if pre else k, pre))
+        recvs[r] = out
     return {"np": np_, "async_small": a, "detached": d, "sends": {str(k): v for k, v in sends.items()},
             "recvs": {str(k): v for k, v in recvs.items()}}
 
@@ -77,6 +83,9 @@ CORPUS = [
     # truncation
     {"np": 2, "async_small": 0, "detached": 65536, "sends": {"0": [(1, 0, 10, 0)], "1": []},
      "recvs": {"0": [], "1": [(0, 0, 6, 0, 0)]}},
+    # pre-posted receive smaller than async-small-thresh, message above it: must be reported as truncated
+    {"np": 2, "async_small": 32, "detached": 256, "sends": {"0": [(1, 1, 9, 0)], "1": []},
+     "recvs": {"0": [], "1": [(0, 1, 6, 1, 1)]}},
     # pre-posted wildcard receive, ssend
     {"np": 3, "async_small": 64, "detached": 64, "sends": {"0": [(2, 1, 20, 1)], "1": [(2, 2, 4, 3)], "2": []},
      "recvs": {"0": [], "1": [], "2": [(-1, -1, 20, 1, 1), (-1, -1, 20, 2, 0)]}},
@@ -105,9 +114,11 @@ def judge(ctx, p, out, rc, err):
             v = [int(x) for x in w[1:]]
             logs[(v[0], v[1])] = v[2:]
     nrecv = sum(len(p["recvs"][str(r)]) for r in range(np_))
-    if rc != 0 or consts is None or len(logs) != nrecv:
-        ctx.fail("run-failed", "program ended with rc=%d and %d/%d receive logs: %s" % (rc, len(logs), nrecv, (err or out)[-300:]), p)
+    incomplete = rc != 0 or len(logs) != nrecv
+    if consts is None:
+        ctx.fail("run-failed", "program did not start (rc=%d): %s" % (rc, (err or out)[-300:]), p)
         return 0
+    nfail0 = len(ctx.failures)
     ok_code, trunc_code = consts
     # the verified predicate decides every (message, receive) compatibility
     pairs, queries = [], []
@@ -127,6 +138,8 @@ def judge(ctx, p, out, rc, err):
         last_seq = {}
         for j in order:
             src, tag, buf, kind, pre = rl[j]
+            if (r, j) not in logs:
+                continue
             rcode, ssrc, stag, cnt, m0, m1, m2, m3, fill = logs[(r, j)]
             case = dict(p, receive=[r, j])
             # which message did it get (from the payload)?
@@ -148,8 +161,12 @@ def judge(ctx, p, out, rc, err):
             if earlier:
                 e = earlier[0]
                 etag = p["sends"][str(m0)][e][1]
+                ecnt = p["sends"][str(m0)][e][2]
                 kindsig = "anytag-different-tags" if (tag < 0 and etag != mtag) else "same-tag"
-                ctx.fail("overtaking-" + kindsig + ("-preposted" if pre else ""),
+                sig = "overtaking-" + kindsig + ("-preposted" if pre else "")
+                if pre and ecnt > buf and 4 * buf < p["async_small"] <= 4 * ecnt:
+                    sig = "truncation-deadlock-preposted"      # same root cause: the receive sits in the small mailbox, the message goes to the large one
+                ctx.fail(sig,
                          "rank %d receive %d (src %d tag %d%s) got message #%d (tag %d, %d bytes) of rank %d while its earlier message #%d "
                          "(tag %d, %d bytes) was still pending; async-small-thresh %d detached-thresh %d" % (
                              r, j, src, tag, ", pre-posted" if pre else "", m1, mtag, 4 * mcnt, m0, e, etag,
@@ -168,7 +185,20 @@ def judge(ctx, p, out, rc, err):
                     ctx.fail("wrong-count", "rank %d receive %d: count %d, message has %d" % (r, j, cnt, mcnt), case)
             if m2 != mtag or m3 != mcnt or fill != 1:
                 ctx.fail("wrong-payload", "rank %d receive %d: payload header %s filler_ok %d for message %s" % (r, j, [m0, m1, m2, m3], fill, got), case)
-    return nrecv
+    if incomplete and len(ctx.failures) == nfail0:
+        # nothing wrong in what was logged: the program itself hung.  Recognise the one known shape.
+        shape = False
+        for r in range(np_):
+            for j, (src, tag, buf, kind, pre) in enumerate(p["recvs"][str(r)]):
+                if pre and 4 * buf < p["async_small"] and (r, j) not in logs:
+                    for s in range(np_):
+                        for i, (dst, mtag, cnt, mode) in enumerate(p["sends"][str(s)]):
+                            if dst == r and compat.get((r, j, s, i), [0])[0] == 1 and cnt > buf and 4 * cnt >= p["async_small"]:
+                                shape = True
+        ctx.fail("truncation-deadlock-preposted" if shape else "run-failed",
+                 "program ended with rc=%d and %d/%d receive logs (async-small-thresh %d): %s" % (
+                     rc, len(logs), nrecv, p["async_small"], " ".join((err or out)[-260:].split())), p)
+    return len(logs)
 
 
 def run(ctx):
@@ -192,7 +222,7 @@ def run(ctx):
     for p in progs:
         open(cf, "w").write(script_of(p))
         rc, out, err = fw.smpirun(prog, p["np"], [cf], cfg=["smpi/async-small-thresh:%d" % p["async_small"],
-                                                              "smpi/send-is-detached-thresh:%d" % p["detached"]], timeout=120)
+                                                              "smpi/send-is-detached-thresh:%d" % p["detached"]], timeout=40)
         n = judge(ctx, p, out, rc, err)
         dist["programs"] += 1
         dist["receives"] += n
